@@ -15,15 +15,18 @@ def wrap_scans(f, kind_by_var):
     from vf.rustlex import match_close
     done = []
     toks = f._toks()
-    for m in re.finditer(r"let\s+\((\w+),\s*\w+\)\s*=\s*parse_until_no_newline\(\s*\w+\s*,\s*", f.orig):
+    for m in re.finditer(r"let\s+\((\w+),\s*\w+\)\s*=\s*(parse_until_no_newline|parse_until)\(\s*\w+\s*,\s*(?=\|)", f.orig):
         var = m.group(1)
         if var not in kind_by_var:
+            if m.group(2) == "parse_until":
+                continue
             raise AnchorLost("%s: scan into a component `%s` the grammar does not know" % (f.name, var))
         # the `(` of the call
-        po = f.orig.index("(", f.orig.index("parse_until_no_newline", m.start()))
+        po = f.orig.index("(", f.orig.index(m.group(2), m.start()))
         i = next(ix for ix, t in enumerate(toks) if t[1] == po)
         c = toks[match_close(f.orig, toks, i)][1]
-        f.insert_at(m.end(), "as_kind(", prio=10 ** 9)
+        # a line-bounded scan is wrapped as `as_kind`, a plain scan must itself stop at line ends: `as_exact`
+        f.insert_at(m.end(), "as_kind(" if m.group(2) == "parse_until_no_newline" else "as_exact(", prio=10 ** 9)
         f.insert_at(c, ", Ghost(%d))" % kind_by_var[var])
         f.rewrites.append({"rule": "R12", "site": "%s:%d" % (f.file, f.line_of_rel(m.end())), "before": f.orig[m.end():c], "after": "as_kind(.., Ghost(%d))" % kind_by_var[var],
                            "why": "closure argument wrapped in an identity function that carries the obligation `this closure is byte class %d`" % kind_by_var[var]})
@@ -226,7 +229,7 @@ pub struct ExUtf8Error(std::str::Utf8Error);
         /*@L:split_position_is_the_reference_scan:C05*/ forall|kind: int| #[trigger] kind_exact(predicate, kind) ==> find_first(bytes@, kind) == cut_of(ret)
             && match ret { Ok((s, rest)) => sp_until(bytes@, kind) == Some((str_bytes(s), rest@)), Err(_) => sp_until(bytes@, kind) is None },
         ret is Ok ==> ret->Ok_0.1@.len() <= bytes@.len(),
-        /*@L:scan_to_the_line_end_stays_within_the_line:C06*/ (kind_exact(predicate, 0) && ret is Ok) ==> consumed_clean(bytes@, ret->Ok_0.1@) && str_no_nl(ret->Ok_0.0),""")
+        /*@L:scan_to_the_line_end_stays_within_the_line:C06*/ ((kind_exact(predicate, 0) || kind_exact(predicate, 2)) && ret is Ok) ==> consumed_clean(bytes@, ret->Ok_0.1@) && str_no_nl(ret->Ok_0.0),""")
     f.after_stmt("let (slice, rest) = match", """    proof {
         let k = slice@.len() as int;
         assert(slice@ =~= bytes@.subrange(0, k));
@@ -238,9 +241,9 @@ pub struct ExUtf8Error(std::str::Utf8Error);
             assert forall|j: int| 0 <= j < k implies !in_set(kind, #[trigger] bytes@[j]) by { }
             lemma_find_first(bytes@, kind, k);
         }
-        if kind_exact(predicate, 0) {
+        if kind_exact(predicate, 0) || kind_exact(predicate, 2) {
             reveal(first_hit); reveal(str_no_nl);
-            assert forall|j: int| 0 <= j < k implies !spec_is_newline(#[trigger] bytes@[j]) by { assert(!in_set(0, bytes@[j])); }
+            assert forall|j: int| 0 <= j < k implies !spec_is_newline(#[trigger] bytes@[j]) by { if kind_exact(predicate, 0) { assert(!in_set(0, bytes@[j])); } else { assert(!in_set(2, bytes@[j])); } }
             lemma_consumed_intro(bytes@, rest@, k);
             assert forall|j: int| 0 <= j < k implies !spec_is_newline(#[trigger] slice@[j]) by { assert(slice@[j] == bytes@[j]); }
         }
@@ -524,39 +527,19 @@ pub open spec fn lit_sf_key() -> Seq<u8> { str_bytes("sourceFile") }
 //   `#` ` {"id":"sourceFile","fileName":"` VALUE `"}`     -> key "sourceFile", value VALUE (no quote, no line end inside)
 //   `#` KEY [`:` VALUE]   up to the line end                  -> key = trim(KEY), value = trim(VALUE)
 pub struct HeaderSpec { pub key: Seq<u8>, pub value: Option<Seq<u8>>, pub rest: Seq<u8> }
-pub open spec fn header_spec(bytes: Seq<u8>) -> Option<HeaderSpec> {
-    if !(bytes.len() >= 1 && bytes[0] == 35u8) { None } else {
-        let body = bytes.subrange(1, bytes.len() as int);
-        if has_prefix(body, lit_sfp()) {
-            let v0 = body.subrange(32, body.len() as int);
-            let k = find_first(v0, 1);
-            if k < v0.len() && v0[k] == 34u8 && has_prefix(v0.subrange(k, v0.len() as int), seq![34u8, 125u8]) {
-                Some(HeaderSpec { key: lit_sf_key(), value: Some(v0.subrange(0, k)), rest: skip_nl(v0.subrange(k + 2, v0.len() as int)) })
-            } else { None }
-        } else {
-            let k = find_first(body, 2);
-            if k < body.len() && body[k] == 58u8 {
-                let after = body.subrange(k + 1, body.len() as int);
-                let e = find_first(after, 0);
-                Some(HeaderSpec { key: spec_trim(body.subrange(0, k)), value: Some(spec_trim(after.subrange(0, e))), rest: skip_nl(after.subrange(e, after.len() as int)) })
-            } else {
-                Some(HeaderSpec { key: spec_trim(body.subrange(0, k)), value: None, rest: skip_nl(body.subrange(k, body.len() as int)) })
-            }
-        }
-    }
-}
-// the text pieces of a header line (before trimming) are valid UTF-8 -- the only other reason for a header line to be rejected
-pub open spec fn header_utf8_ok(bytes: Seq<u8>) -> bool {
-    let body = bytes.subrange(1, bytes.len() as int);
-    if has_prefix(body, lit_sfp()) {
-        let v0 = body.subrange(32, body.len() as int);
-        valid_utf8(v0.subrange(0, find_first(v0, 1)))
-    } else {
-        let k = find_first(body, 2);
-        valid_utf8(body.subrange(0, k)) && (k < body.len() && body[k] == 58u8 ==> {
-            let after = body.subrange(k + 1, body.len() as int);
-            valid_utf8(after.subrange(0, find_first(after, 0))) })
-    }
+pub open spec fn lit_hash() -> Seq<u8> { seq![35u8] }
+pub open spec fn lit_qb() -> Seq<u8> { seq![34u8, 125u8] }    // `"}`
+pub open spec fn header_spec(b0: Seq<u8>) -> Option<HeaderSpec> {
+    match strip(b0, lit_hash()) { None => None, Some(body) =>
+        match strip(body, lit_sfp()) {
+            Some(v0) => match sp_word(v0, 1) { None => None, Some((v, v1)) => match strip(v1, lit_qb()) { None => None, Some(v2) =>
+                Some(HeaderSpec { key: lit_sf_key(), value: Some(v), rest: skip_nl(v2) }) } },
+            None => match sp_until(body, 2) { None => None, Some((k, k1)) =>
+                match strip(k1, lit_colon()) {
+                    Some(a) => match sp_until(a, 0) { None => None, Some((v, k2)) => Some(HeaderSpec { key: spec_trim(k), value: Some(spec_trim(v)), rest: skip_nl(k2) }) },
+                    None => Some(HeaderSpec { key: spec_trim(k), value: None, rest: skip_nl(k1) }),
+                } },
+        } }
 }
 pub open spec fn opt_bytes(o: Option<&str>) -> Option<Seq<u8>> { match o { Some(s) => Some(str_bytes(s)), None => None } }
 // a no-newline prefix of length k (1 <= k) followed by skip_nl of the remainder: the witness form of taken_within_first_line
@@ -694,127 +677,56 @@ pub proof fn lemma_sfp_no_nl()
     char_class_shims(f)
     for occ in range(1, len(re.findall(r"\|c\|", f.orig)) + 1):
         f.closure("|c|", occ=occ, params="|c: &u8|", ret="r: bool", spec="ensures r == ({specbody})", spec_map=SPEC_MAP)
-    f.replace_all_re(r"parse_until\(bytes, is_newline\)", "parse_until(bytes, |b: &u8| -> (r: bool) ensures r == spec_is_newline(*b) { is_newline(b) })", "R3",
-                     why="fn item `is_newline` passed as predicate: eta-expanded into a closure carrying its contract", min_count=0)
+    f.replace_all_re(r"parse_until\(bytes, is_newline\)", "parse_until(bytes, as_exact(|b: &u8| -> (r: bool) ensures r == spec_is_newline(*b) { is_newline(b) }, Ghost(0)))", "R3",
+                     why="fn item `is_newline` passed as predicate: eta-expanded into a closure carrying its contract, wrapped (R12) as byte class 0", min_count=0)
     f.replace_all_re(r"\.map\(\|\(v, bytes\)\| \(Some\(v\), bytes\)\)", ".map(|vb: (&str, &[u8])| -> (r: (Option<&str>, &[u8])) ensures r == (Some(vb.0), vb.1) { let (v, bytes) = vb; (Some(v), bytes) })", "R3",
                      why="closure with a tuple pattern parameter: pattern moved into a `let` inside the body, contract added", min_count=0)
     f.replace_all_re(r"key\.trim\(\)", "shim_trim(key)", "R2", why="str::trim behind a shim (result is a sub-slice)", min_count=0)
     f.replace_all_re(r"value\.map\(\|v\| v\.trim\(\)\)", "value.map(|v: &str| -> (r: &str) ensures str_bytes(r) == spec_trim(str_bytes(v)), exists|a: int, b: int| 0 <= a <= b <= str_bytes(v).len() && str_bytes(r) == #[trigger] str_bytes(v).subrange(a, b) { shim_trim(v) })", "R2", min_count=0)
+    wrap_scans(f, {"value": 1, "key": 2})
     f.contract("""    ensures
-        /*@L:header_grammar:C05*/ match ret {
+        /*@L:header_line_is_accepted_iff_the_reference_grammar_accepts_it:C05*/ match ret {
             Ok((ProguardRecord::Header { key, value }, rest)) => header_spec(bytes@) == Some(HeaderSpec { key: str_bytes(key), value: opt_bytes(value), rest: rest@ }),
             Ok((_, _)) => false,
-            Err(_) => true,
+            Err(_) => header_spec(bytes@) is None,
         },
-        /*@L:every_well_formed_header_line_is_accepted:C05*/ (header_spec(bytes@) is Some && header_utf8_ok(bytes@)) ==> ret is Ok,
         /*@L:header_key_and_value_have_no_line_terminator:C06*/ match ret { Ok((ProguardRecord::Header { key, value }, _)) => str_no_nl(key) && opt_no_nl(value), _ => true },
         /*@L:header_record_taken_within_first_line:C06*/ ret is Ok ==> taken_within_first_line(bytes@, ret->Ok_0.1@),""")
-    f.body_start("let ghost b0 = bytes@;\n    proof { axiom_byte_literals(); reveal_strlit(\"sourceFile\"); reveal(scan_facts); reveal(first_hit); reveal(scan_raw); reveal(prefix_raw); reveal(split_ok); if b0.len() >= 1 && b0[0] == 35u8 { assert(b0.subrange(0, 1) =~= seq![35u8]); } }\n")
-    f.after_stmt("let bytes = parse_prefix(bytes, b\"#\")", "    let ghost body = bytes@;\n    proof { assert(body =~= b0.subrange(1, b0.len() as int)); assert(b0.subrange(0, 1)[0] == 35u8); assert(b0[0] == 35u8); }\n")
-    f.insert_after("if let Ok(bytes) = parse_prefix(bytes, SOURCE_FILE_PREFIX) {", "\n        let ghost v0 = bytes@;\n        proof { lemma_find_first_all(v0, 1); assert(has_prefix(body, lit_sfp())); assert(v0 =~= body.subrange(32, body.len() as int)); }")
-    f.after_stmt("let (value, bytes) = parse_until", """        let ghost v1 = bytes@;
-        proof { let k = str_bytes(value).len() as int; assert(v1 =~= v0.subrange(k, v0.len() as int)); assert(v0.subrange(0, k).len() == k);
-                if v1.len() >= 2 && v1[0] == 34u8 && v1[1] == 125u8 { assert(v1.subrange(0, 2) =~= seq![34u8, 125u8]); } }
-""")
-    f.after_stmt("let bytes = parse_prefix(bytes, br#", "        let ghost v2 = bytes@;\n")
+    f.body_start("let ghost b0 = bytes@;\n    proof { axiom_byte_literals(); reveal_strlit(\"sourceFile\"); lemma_sfp_no_nl(); lemma_consumed_refl(b0);"
+                 " assert(no_nl(b\"#\"@) && no_nl(b\":\"@) && no_nl(br#\"\"}\"#@) && no_nl(SOURCE_FILE_PREFIX@)); }\n")
+    f.after_stmt("let bytes = parse_prefix(bytes, b\"#\")", "    let ghost body = bytes@;\n    proof { lemma_consumed_trans(b0, b0, body); }\n")
+    f.insert_after("if let Ok(bytes) = parse_prefix(bytes, SOURCE_FILE_PREFIX) {", "\n        let ghost v0 = bytes@;\n        proof { lemma_consumed_trans(b0, body, v0); }")
+    f.after_stmt("let (value, bytes) = parse_until", "        let ghost v1 = bytes@;\n        proof { assert(sp_word(v0, 1) == Some((str_bytes(value), v1))); lemma_consumed_trans(b0, v0, v1); }\n")
+    f.after_stmt("let bytes = parse_prefix(bytes, br#", "        let ghost v2 = bytes@;\n        proof { lemma_consumed_trans(b0, v1, v2); }\n")
     f.insert_before("Ok((record, consume_leading_newlines(bytes)))", """proof {
-            reveal(str_no_nl);
-            let v = str_bytes(value);
-            let k = v.len() as int;
-            assert(has_prefix(body, lit_sfp()));
-            assert(v0 =~= body.subrange(32, body.len() as int));
-            assert(v1 =~= v0.subrange(k, v0.len() as int));
-            assert(v1[0] == 34u8 && v1[1] == 125u8);
-            assert(v0[k] == v1[0]);
-            assert forall|j: int| 0 <= j < k implies !in_set(1, #[trigger] v0[j]) by { }
-            lemma_find_first(v0, 1, k);
-            assert(v1.subrange(0, 2) =~= seq![34u8, 125u8]);
-            assert(v0.subrange(0, k) =~= v);
-            assert(v0.subrange(k + 2, v0.len() as int) =~= v2);
-            assert(str_bytes("sourceFile") =~= lit_sf_key());
-            // line-boundary discipline: `#` + 32 literal bytes + value + `"}` contain no line terminator
-            let kk = 1 + 32 + k + 2;
-            assert(b0.subrange(kk, b0.len() as int) =~= v2);
-            assert forall|j: int| 0 <= j < kk implies !spec_is_newline(#[trigger] b0.subrange(0, kk)[j]) by {
-                if j == 0 { } else if j < 33 { assert(b0[j] == lit_sfp()[j - 1]); lemma_sfp_no_nl(); }
-                else if j < 33 + k { assert(b0[j] == v0[j - 33]); }
-                else { assert(b0[j] == v1[j - 33 - k]); }
-            }
-            lemma_taken(b0, kk, skip_nl(v2));
-            assert forall|j: int| 0 <= j < v.len() implies !spec_is_newline(#[trigger] v[j]) by { assert(v[j] == v0[j]); }
-            assert(no_nl(lit_sf_key()));
+            /*@L:source_file_header_is_the_json_form:C05*/ assert(header_spec(b0) == Some(HeaderSpec { key: lit_sf_key(), value: Some(str_bytes(value)), rest: skip_nl(v2) }));
+            lemma_consumed_taken(b0, v2);
+            reveal(str_no_nl); assert(no_nl(lit_sf_key()));
         }
         """, occ=1)
-    f.insert_before("let (key, bytes) = parse_until(", "proof { lemma_find_first_all(body, 2); assert(!has_prefix(body, lit_sfp())); }\n        ")
-    f.after_stmt("let (key, bytes) = parse_until(", """        let ghost k1 = bytes@;
+    f.after_stmt("let (key, bytes) = parse_until(", "        let ghost k1 = bytes@;\n        proof { assert(sp_until(body, 2) == Some((str_bytes(key), k1))); lemma_consumed_trans(b0, body, k1); }\n")
+    f.after_stmt("let (value, bytes) = match parse_prefix(", """        let ghost k2 = bytes@;
         proof {
-            let k = str_bytes(key).len() as int;
-            assert(k1 =~= body.subrange(k, body.len() as int));
-            assert(body.subrange(0, k).len() == k);
-            if k < body.len() { assert(k1[0] == body[k]); }
-            if k1.len() >= 1 { assert(k1.subrange(0, 1) =~= seq![k1[0]]); assert(k1.subrange(0, 1)[0] == k1[0]); assert(seq![58u8][0] == 58u8); }
-            if k1.len() >= 1 {
-                assert(k1.subrange(1, k1.len() as int) =~= body.subrange(k + 1, body.len() as int));
-                lemma_find_first_all(k1.subrange(1, k1.len() as int), 0);
-                lemma_find_first_all(body.subrange(k + 1, body.len() as int), 0);
-                lemma_find_first(body, 2, k);
-                let after = k1.subrange(1, k1.len() as int);
-                // pre-digested for the error exit of the value scan: an invalid value makes the line ill-formed
-                assert forall|e: int| 0 <= e <= after.len() && k1[0] == 58u8 && !valid_utf8(#[trigger] after.subrange(0, e))
-                    && (forall|j: int| 0 <= j < e ==> !spec_is_newline(#[trigger] after[j])) && (e < after.len() ==> spec_is_newline(after[e]))
-                    implies !header_utf8_ok(b0) by {
-                    lemma_find_first(after, 0, e);
-                    assert(body[k] == 58u8);
-                }
-            }
+            /*@L:optional_value_after_the_colon:C05*/ assert(match strip(k1, lit_colon()) {
+                Some(a) => value is Some && sp_until(a, 0) == Some((str_bytes(value->0), k2)),
+                None => value is None && k2 == k1 });
+            assert(consumed_clean(b0, k2)) by { match strip(k1, lit_colon()) { Some(a) => { lemma_consumed_trans(b0, k1, a); lemma_consumed_trans(b0, a, k2); }, None => {} } }
         }
 """)
-    f.after_stmt("let (value, bytes) = match parse_prefix(", "        let ghost k2 = bytes@;\n")
     f.insert_before("Ok((record, consume_leading_newlines(bytes)))", """proof {
             reveal(str_no_nl);
             let kb = str_bytes(key);
-            let k = kb.len() as int;
-            assert(!has_prefix(body, lit_sfp()));
-            assert(k1 =~= body.subrange(k, body.len() as int));
-            assert forall|j: int| 0 <= j < k implies !in_set(2, #[trigger] body[j]) by { }
-            if k < body.len() { assert(k1[0] == body[k]); }
-            lemma_find_first(body, 2, k);
-            assert(body.subrange(0, k) =~= kb);
-            assert(no_nl(kb)) by { assert forall|j: int| 0 <= j < kb.len() implies !spec_is_newline(#[trigger] kb[j]) by { assert(kb[j] == body[j]); } }
             let (tk, tv) = match record { ProguardRecord::Header { key, value } => (key, value), _ => (key, value) };
-            // trimmed strings are sub-slices
+            /*@L:key_and_value_are_trimmed:C05*/ assert(header_spec(b0) == Some(HeaderSpec { key: str_bytes(tk), value: opt_bytes(tv), rest: skip_nl(k2) }));
+            // trimmed strings are sub-slices of strings without line terminator
             let (ka, kz) = choose|a: int, b: int| 0 <= a <= b <= kb.len() && str_bytes(tk) == #[trigger] kb.subrange(a, b);
             lemma_sub_no_nl(kb, ka, kz);
-            if k < body.len() && body[k] == 58u8 {
-                let after = body.subrange(k + 1, body.len() as int);
-                assert(k1.subrange(0, 1) =~= seq![58u8]);
+            if value is Some {
                 let vb = str_bytes(value->0);
-                let e = vb.len() as int;
-                assert(after =~= k1.subrange(1, k1.len() as int));
-                assert(k2 =~= after.subrange(e, after.len() as int));
-                assert forall|j: int| 0 <= j < e implies !in_set(0, #[trigger] after[j]) by { }
-                if e < after.len() { assert(k2[0] == after[e]); }
-                lemma_find_first(after, 0, e);
-                assert(after.subrange(0, e) =~= vb);
-                assert(no_nl(vb)) by { assert forall|j: int| 0 <= j < vb.len() implies !spec_is_newline(#[trigger] vb[j]) by { assert(vb[j] == after[j]); } }
                 let (va, vz) = choose|a: int, b: int| 0 <= a <= b <= vb.len() && str_bytes(tv->0) == #[trigger] vb.subrange(a, b);
                 lemma_sub_no_nl(vb, va, vz);
-                let kk = 1 + k + 1 + e;
-                assert(b0.subrange(kk, b0.len() as int) =~= k2);
-                assert forall|j: int| 0 <= j < kk implies !spec_is_newline(#[trigger] b0.subrange(0, kk)[j]) by {
-                    if j == 0 { } else if j < 1 + k { assert(b0[j] == body[j - 1]); } else if j == 1 + k { assert(b0[j] == body[k]); } else { assert(b0[j] == after[j - 2 - k]); }
-                }
-                lemma_taken(b0, kk, skip_nl(k2));
-            } else {
-                if k < body.len() { assert(k1.subrange(0, 1)[0] == body[k]); }
-                assert(value is None && k2 == k1);
-                let kk = 1 + k;
-                assert(b0.subrange(kk, b0.len() as int) =~= k1);
-                assert forall|j: int| 0 <= j < kk implies !spec_is_newline(#[trigger] b0.subrange(0, kk)[j]) by {
-                    if j == 0 { } else { assert(b0[j] == body[j - 1]); }
-                }
-                lemma_taken(b0, kk, skip_nl(k1));
             }
+            lemma_consumed_taken(b0, k2);
         }
         """, occ=2)
     u.emit(f)
